@@ -3,6 +3,7 @@ CONSTANTS
   Ups = {"X", "Y"}
   DataIds = {"A", "B"}
   PreReg <- PreRegA
+  DedupPreReg = TRUE
   MaxChunks = 3
   Readers = {"R1"}
   Cap = 2
